@@ -134,7 +134,7 @@ def check_case(case, col=None):
 @st.composite
 def c04_cases(draw):
     case = draw(e1.cases(ops=['expect', 'expect', 'expect_exact', 'expect_list', 'expect_c', 'read', 'readline',
-                              'readlines', 'setbuf'], max_calls=5, max_syms=10))
+                              'readlines', 'setbuf', 'set_sws', 'set_maxread'], max_calls=5, max_syms=10))
     # after the history: three more calls, which must report EOF again once EOF has been seen
     text_mode = case['enc'] is not None
     extra = draw(st.lists(e1.call(text_mode, ['expect', 'expect_exact', 'expect_list', 'read', 'readline']),
